@@ -190,6 +190,13 @@ class OptimizerGeneric:
                                        bounds=bounds,
                                        options=options,
                                        tol=tol)
+
+        # The last function evaluation is not necessarily the best one.
+        # Update all lens variables to their optimized values
+        for idvar, var in enumerate(self.problem.variables):
+            var.update(result.x[idvar])
+        self.problem.update_optics()
+
         return result
 
     def undo(self):
@@ -282,6 +289,13 @@ class LeastSquares(OptimizerGeneric):
                                             max_nfev=maxiter,
                                             verbose=verbose,
                                             ftol=tol)
+
+        # The last function evaluation is not necessarily the best one.
+        # Update all lens variables to their optimized values
+        for idvar, var in enumerate(self.problem.variables):
+            var.update(result.x[idvar])
+        self.problem.update_optics()
+
         return result
 
 
@@ -324,6 +338,13 @@ class DualAnnealing(OptimizerGeneric):
                                              bounds=bounds,
                                              maxiter=maxiter,
                                              x0=x0)
+
+        # The last function evaluation is not necessarily the best one.
+        # Update all lens variables to their optimized values
+        for idvar, var in enumerate(self.problem.variables):
+            var.update(result.x[idvar])
+        self.problem.update_optics()
+
         return result
 
 
@@ -386,4 +407,11 @@ class DifferentialEvolution(OptimizerGeneric):
                                                      disp=disp,
                                                      updating=updating,
                                                      workers=workers)
+
+        # The last function evaluation is not necessarily the best one.
+        # Update all lens variables to their optimized values
+        for idvar, var in enumerate(self.problem.variables):
+            var.update(result.x[idvar])
+        self.problem.update_optics()
+
         return result
